@@ -410,6 +410,30 @@ class SymEval:
                 return self.apply(env[p], [self.ev(a, env) for a in e[2]])
             if p.split("::")[-1] in ("panic_fmt", "panic", "begin_panic", "panic_display", "unreachable_display", "panic_explicit", "assert_failed"):
                 raise Panic(p.split("::")[-1])
+            if p.endswith("mem::take") and len(e[2]) == 1:
+                lv = self.lvalue(e[2][0], env)
+                if lv is None:
+                    self.fail("mem::take of an unknown place", e)
+                old_ = lv[0]()
+                if isinstance(old_, tuple) and old_ and old_[0] == "list":
+                    lv[1](("list", []))
+                elif old_ == NONE or (isinstance(old_, tuple) and old_ and old_[0] == "some"):
+                    lv[1](NONE)
+                elif isinstance(old_, int) and not isinstance(old_, bool):
+                    lv[1](0)
+                elif isinstance(old_, tuple) and old_ and old_[0] in ("str", "fmt"):
+                    lv[1](("str", ""))
+                else:
+                    self.fail("mem::take of a value whose default is unknown", e)
+                return old_
+            if p.endswith("mem::swap") and len(e[2]) == 2:
+                la, lb = self.lvalue(e[2][0], env), self.lvalue(e[2][1], env)
+                if la is None or lb is None:
+                    self.fail("mem::swap of unknown places", e)
+                va, vb = la[0](), lb[0]()
+                la[1](vb)
+                lb[1](va)
+                return UNIT
             if p.endswith("mem::replace") and len(e[2]) == 2:
                 new = self.ev(e[2][1], env)
                 old = self.set_place(e[2][0], new, env)
@@ -817,7 +841,10 @@ class SymEval:
         for p, a in zip(clo[1], args):
             if self.match_pat(p, a, env) is not True:
                 self.fail("closure parameter pattern")
-        return self.ev(clo[2], env)
+        try:
+            return self.ev(clo[2], env)
+        except Return as r_:
+            return r_.v             # `return` / `?` inside a closure leave the closure, not the enclosing function
 
     def mcall(self, e, env):
         recv = self.ev(e[1], env)
